@@ -483,7 +483,7 @@ pub fn chase(
             }
 
             // Do we have a default value?, i.e. $arg_name(defualt_value)
-            if parts.len() == 2 && !chasing {
+            if parts.len() == 2 {
                 default = parts.pop().unwrap();
             }
             chasing = true;
